@@ -928,6 +928,22 @@ fn main() {
             let (k, v) = split_arrow(r);
             unit_rules.mac1.insert(k, v);
             ln += 1;
+        } else if let Some(r) = d.strip_prefix("CONSTS ") {
+            // every module-level `const` of the file is copied (bodies may refer to them)
+            let kv = parse_kv(r);
+            let rel = kv.get("file").unwrap_or_else(|| die("CONSTS needs file=")).clone();
+            let src = files.entry(rel.clone()).or_insert_with(|| SourceFile::load(&repo, &rel));
+            for it in &src.ast.items {
+                if let syn::Item::Const(c) = it {
+                    let (ks, _) = src.range(c.const_token.span());
+                    let (_, e) = src.range(c.span());
+                    out.push("pub ", &format!("tmpl:{}", ln + 1));
+                    apply_edits(src, ks, e, vec![], &mut out);
+                    out.push("\n", &format!("tmpl:{}", ln + 1));
+                    notes.push(format!("const {} copied from {}", c.ident, rel));
+                }
+            }
+            ln += 1;
         } else if let Some(r) = d.strip_prefix("ITEM ") {
             let kv = parse_kv(r);
             let rel = kv.get("file").unwrap_or_else(|| die("ITEM needs file=")).clone();
